@@ -504,6 +504,39 @@ def run(rep):
     rep.not_decided += ['pickle save/load round trip (library code; replay oracle only)', 'random histories to length 12 at depth 10 (covered by the inductive step, not enumerated)']
 
 
+def membership_kernel(rep, pid):
+    """the real Region.sky_within on symbolic regions (shared by C10 / C11, whose own kernels stub the region):
+    membership == pixel of the point in the deepest-level set, degrees/radians, non-finite never inside"""
+    reg = sym_regions()
+    rep.kernel('K-membership', functions=[F + ':Region.sky_within', F + ':Region.sky2ang', F + ':Region.radec2sky', F + ':Region.get_demoted'],
+               bounds='depth 1-3, all pixels below level-1 pixel 0 symbolic, before/after a query; all-sky depth-1 universe for non-finite positions',
+               stubs=['healpy.ang2pix: real library on concrete points', 'np.isin -> per-element guard disjunction'])
+    cases = []
+    for D in (1, 2, 3):
+        uni = universe(D)
+        for cA in (False, True):
+            pts = list(range(min(4, 4 ** (D - 1))))
+            cases.append((h_within(reg, D, uni, cA, pts), dict(op='within', D=D, cachedA=cA)))
+    for cA in (False, True):
+        cases.append((h_nonfinite(reg, cA), dict(op='within', D=1, cachedA=cA, allsky=True)))
+    for h, meta in cases:
+        st, res = explore(h, workers=1, wall_s=120)
+        rep.stats(st)
+        for r in res:
+            for ob in r['obligations']:
+                rep.count(ob['result'], ob['name'])
+                if ob['result'] == 'sat':
+                    w = dict(meta)
+                    w['a_levels'] = model_levels(ob['model'], 'a', meta['D'], meta.get('cachedA'))
+                    w['kind'] = 'membership'
+                    try:
+                        bad, cls, detail = replay_case(w)
+                    except Exception as e:
+                        bad, cls, detail = False, None, 'replay error %r' % e
+                    rep.finding('%s/K-membership/%s' % (pid, cls or ob['name'].split(':')[-1]), w, detail, reproduced=bad)
+    rep.end_kernel()
+
+
 def replay(w):
     bad, cls, detail = replay_case(w['witness'])
     return bad, '%s: %s' % (cls, detail)
